@@ -881,8 +881,16 @@ func (m *Monitors) checkSchedules(prev *vh.Snapshot, bi *BatchInfo, next *vh.Sna
 			continue
 		}
 		createdHere := false
+		// the transaction that advanced this schedule (two schedules may expand to the same promise id,
+		// and a stale transaction of a deleted schedule may create it in the same batch)
+		var ownTx *TxInfo
 		for _, c := range cmds {
-			if c.tx.Name != "SchedulePromises" || c.res == nil || rowsOf(c.res) != 1 {
+			if c.cmd.Kind == t_aio.UpdateSchedule && c.cmd.UpdateSchedule.Id == id && c.res != nil && rowsOf(c.res) == 1 {
+				ownTx = c.tx
+			}
+		}
+		for _, c := range cmds {
+			if c.tx.Name != "SchedulePromises" || c.res == nil || rowsOf(c.res) != 1 || (ownTx != nil && c.tx != ownTx) {
 				continue
 			}
 			if (c.cmd.Kind == t_aio.CreatePromise && c.cmd.CreatePromise.Id == pid) || (c.cmd.Kind == t_aio.CreatePromiseAndTask && c.cmd.CreatePromiseAndTask.PromiseCommand.Id == pid) {
